@@ -579,6 +579,44 @@ package ysgo
 //@   ensures "registered-on-success": err == nil ==> functionID in storer.functionsByID && storer.functionsByID[functionID] != nil
 //@   ensures "nothing-registered-on-failure": err != nil ==> dom(storer.functionsByID) == old(dom(storer.functionsByID)) && mapval(storer.functionsByID) == old(mapval(storer.functionsByID))
 //
+//@ func newYarnSpinnerCommand(command any) (c YarnSpinnerCommand, err error)
+//@   trusted
+//@   ensures (err == nil) == (c != nil)
+//
+//@ func (storer *commandStorer) convertAndAddCommand(commandID string, command any) (err error)
+//@   requires storer != nil && storer.commandsByID != nil
+//@   modifies mapcontent(storer.commandsByID)
+//@   ensures "registered-on-success": err == nil ==> commandID in storer.commandsByID && storer.commandsByID[commandID] != nil
+//@   ensures "nothing-registered-on-failure": err != nil ==> dom(storer.commandsByID) == old(dom(storer.commandsByID)) && mapval(storer.commandsByID) == old(mapval(storer.commandsByID))
+//
+// the public registration calls touch nothing but the named entry of the runner's own tables
+//@ func (dr *DialogueRunner) AddFunction(functionID string, function YarnSpinnerFunction)
+//@   requires dr != nil && dr.functionStorer != nil && dr.functionStorer.functionsByID != nil
+//@   modifies mapcontent(dr.functionStorer.functionsByID)
+//@   ensures "registered": functionID in dr.functionStorer.functionsByID && dr.functionStorer.functionsByID[functionID] == function &&
+//@           (forall k string :: {k in dr.functionStorer.functionsByID} k != functionID ==>
+//@               (k in dr.functionStorer.functionsByID) == old(k in dr.functionStorer.functionsByID))
+//@ func (dr *DialogueRunner) AddCommand(commandID string, command YarnSpinnerCommand)
+//@   requires dr != nil && dr.commandStorer != nil && dr.commandStorer.commandsByID != nil
+//@   modifies mapcontent(dr.commandStorer.commandsByID)
+//@   ensures "registered": commandID in dr.commandStorer.commandsByID && dr.commandStorer.commandsByID[commandID] == command &&
+//@           (forall k string :: {k in dr.commandStorer.commandsByID} k != commandID ==>
+//@               (k in dr.commandStorer.commandsByID) == old(k in dr.commandStorer.commandsByID))
+//@ func (dr *DialogueRunner) ConvertAndAddFunction(functionID string, function any) (err error)
+//@   requires dr != nil && dr.functionStorer != nil && dr.functionStorer.functionsByID != nil
+//@   modifies mapcontent(dr.functionStorer.functionsByID)
+//@   ensures "nothing-registered-on-failure": err != nil ==> dom(dr.functionStorer.functionsByID) == old(dom(dr.functionStorer.functionsByID)) &&
+//@           mapval(dr.functionStorer.functionsByID) == old(mapval(dr.functionStorer.functionsByID))
+//@ func (dr *DialogueRunner) ConvertAndAddCommand(commandID string, command any) (err error)
+//@   requires dr != nil && dr.commandStorer != nil && dr.commandStorer.commandsByID != nil
+//@   modifies mapcontent(dr.commandStorer.commandsByID)
+//@   ensures "nothing-registered-on-failure": err != nil ==> dom(dr.commandStorer.commandsByID) == old(dom(dr.commandStorer.commandsByID)) &&
+//@           mapval(dr.commandStorer.commandsByID) == old(mapval(dr.commandStorer.commandsByID))
+//
+// round_places: its value is checked by the bounded stand-in B-rp (C19); here only that it cannot panic (C06)
+//@ func roundPlaces(f float64, places int) (res float64)
+//@   float opaque
+//
 //@ func NewDialogueRunner(storer variable.Storer, rngSeed string, readers []io.Reader) (runner *DialogueRunner, err error)
 //@   ensures "runner-or-error": (err == nil) == (runner != nil)
 //@   ensures "owns-fresh": err == nil ==> fresh(runner) && fresh(runner.dialogue) && fresh(runner.visitedNodes) && fresh(runner.functionStorer) &&
